@@ -177,7 +177,7 @@ def run(rep):
     rep.cover('C17 4x unrolled body entered (n >= 4*lanes)', nmax >= 32)
     validate(rep, mir)
     from ..driver import parts
-    parts(rep, [lambda: cpumath_meaning(rep, mir)])
+    parts(rep, [lambda: cpumath_meaning(rep, mir), lambda: lowrank_meaning(rep, mir)])
 
 def conc_run(mir, k, lanes, n, conc):
     L = Layouts(REPO); C = ConcAlg(); vm = VM(mir, C); install_simd(vm, lanes)
@@ -284,3 +284,52 @@ def cpumath_meaning(rep, mir):
     rep.paths += nq
     if bad: rep.violated('C17.B CpuMath methods compute the assumed algebraic meaning', 'cpumath.meaning', 'CpuMath method differs from the formula the other checks assume: %s' % (bad[0],), model={'problems': [str(b)[:300] for b in bad[:6]]})
     else: rep.holds('C17.B all %d CpuMath Math methods (dispatch layer, faer zip helpers, variance update) equal the algebraic meaning assumed by the Math environment, n in {0,1,3,9}, lanes 2; the finiteness predicates also bit-precisely in FP64 (NaN, inf, zeros, subnormals) (%d comparisons)' % (len(methods), nq), time.time() - t0)
+
+
+def lowrank_meaning(rep, mir):
+    """C17.C the low-rank Math methods of CpuMath (faer matmul / operator code) executed from the MIR with faer's dense linear algebra as exact
+    arithmetic: apply_lowrank_transform(_inplace) = (I + U (diag(vals) - I) U^T) x - the meaning C02 assumes for its low-rank results -,
+    array_mult_eigs = S (I + U (diag(vals) - I) U^T) S x, array_gaussian_eigs = S (I + U (diag(vals) - I) U^T) z with z standard normal draws"""
+    from .. import cpuenv
+    bad = []; nq = 0; t0 = time.time(); n = 3
+    for rank in (0, 1, 2):
+        for name in ('apply_lowrank_transform', 'apply_lowrank_transform_inplace', 'array_mult_eigs', 'array_gaussian_eigs'):
+            from ..vm import VMError, Unmodelled, ret
+            A = RealAlg(); vm = VM(mir, A, inst={}); cpuenv.install(vm, 2); cpuenv.install_linalg(vm); vm.linalg_nrows = n
+            vm.add_model(r' as Math>::dim$', lambda vm, m, c, a: ret(m, n))
+            try: fn = mir.method('CpuMath', 'Math', name)
+            except KeyError as e: bad.append((name, 'method not found', str(e))); continue
+            m = Machine(); m.ghost['normals'] = []
+            U = [[A.fresh('u%d_%d' % (j, i)) for i in range(n)] for j in range(rank)]; vals = [A.fresh('lam%d' % j) for j in range(rank)]
+            x = [A.fresh('x%d' % i) for i in range(n)]; sd = [A.fresh('s%d' % i) for i in range(n)]; old = [A.fresh('old%d' % i) for i in range(n)]
+            Uc = m.alloc(Seq([Seq(c) for c in U])); vc = m.alloc(Seq(vals)); xc = m.alloc(Seq(x)); sc = m.alloc(Seq(sd)); oc = m.alloc(Seq(old))
+            selfc = m.alloc(Struct((Opaque('logp'), Opaque('arch'), Seq([A.fresh('scratch_old')])), 'CpuMath'))
+            if name == 'apply_lowrank_transform': args = [Ref(selfc), Ref(Uc), Ref(vc), Ref(xc), Ref(oc)]; outc = oc; inp = x; scale = None
+            elif name == 'apply_lowrank_transform_inplace': args = [Ref(selfc), Ref(Uc), Ref(vc), Ref(xc)]; outc = xc; inp = x; scale = None
+            elif name == 'array_mult_eigs': args = [Ref(selfc), Ref(sc), Ref(xc), Ref(oc), Ref(Uc), Ref(vc)]; outc = oc; inp = [A.mul(s_, x_) for s_, x_ in zip(sd, x)]; scale = sd
+            else: args = [Ref(selfc), Ref(m.alloc(Opaque('rng'))), Ref(oc), Ref(sc), Ref(vc), Ref(Uc)]; outc = oc; inp = None; scale = sd
+            try: outs = vm.run(fn, args, m)
+            except (VMError, Unmodelled, KeyError) as e:
+                rep.unknown('C17.C %s rank=%d' % (name, rank), '%s: %s' % (type(e).__name__, str(e)[:200])); continue
+            rep.functions |= set(vm.fns_used); rep.stmts += vm.nstmt
+            for (m1, k, v) in outs:
+                if k != 'ret': bad.append((name, rank, 'panics', str(v)[:120])); continue
+                if inp is None:
+                    z = list(m1.ghost.get('normals', []))
+                    if len(z) != n: bad.append((name, rank, 'draws %d standard normals instead of %d' % (len(z), n))); continue
+                    inp_ = z
+                else: inp_ = inp
+                ref = list(inp_)
+                for col, lam in zip(U, vals):
+                    c = A.const(0.0)
+                    for ui, xi in zip(col, inp_): c = A.add(c, A.mul(ui, xi))
+                    f = A.mul(A.sub(lam, A.const(1.0)), c); ref = [A.add(o, A.mul(ui, f)) for o, ui in zip(ref, col)]
+                if scale is not None: ref = [A.mul(s_, r_) for s_, r_ in zip(scale, ref)]
+                got = m1.mem[outc].items; nq += 1
+                if len(got) != n: bad.append((name, rank, 'result has length %d' % len(got))); continue
+                sol = z3.Solver(); sol.set('timeout', 60000); sol.add(*m1.pc); sol.add(z3.Or(*[g.v != r.v for g, r in zip(got, ref)])); r = sol.check()
+                if r == z3.sat: bad.append((name, rank, 'differs from (I + U (diag(vals) - I) U^T) applied to the input%s' % (' and scaled' if scale is not None else '')))
+                elif r == z3.unknown: rep.unknown('C17.C %s rank=%d' % (name, rank), 'solver unknown')
+    rep.paths += nq
+    if bad: rep.violated('C17.C low-rank CpuMath methods compute the assumed linear map', 'cpumath.lowrank', 'low-rank Math method: %s' % (bad[0],), model={'problems': [str(b)[:300] for b in bad[:6]]})
+    else: rep.holds('C17.C apply_lowrank_transform(_inplace), array_mult_eigs, array_gaussian_eigs (n = 3, rank 0..2) equal (I + U (diag(vals) - I) U^T) x, resp. S(..)S x and S(..)z, with faer matmul / operators as exact linear algebra (%d comparisons)' % nq, time.time() - t0)
